@@ -168,9 +168,13 @@ template <typename T>
 template <typename Func>
 void Cabinet<T>::foreach(Func func)
 {
-    for (auto &cell : cells_) {
-        if (cell.id != 0)
-            func(cell.obj_ptr);
+    //! func may call free(), alloc() or clear(): alloc() may reallocate cells_ and clear()
+    //! empties it, so no iterator or reference is kept across the call. Only the cells
+    //! that existed when the traversal began are visited
+    const size_t cell_num = cells_.size();
+    for (size_t pos = 0; pos < cell_num && pos < cells_.size(); ++pos) {
+        if (cells_[pos].id != 0)
+            func(cells_[pos].obj_ptr);
     }
 }
 
